@@ -14,14 +14,17 @@ import (
 
 // Config is one configuration of one system.
 type Config struct {
-	Sys     string   `json:"sys"`     // fmap dup joincc joinsc joinsel pipeline do
-	Variant string   `json:"variant"` // wrapper of the fixed package that is exercised
-	Caps    []int    `json:"caps,omitempty"`
-	Items   [][]int  `json:"items,omitempty"`
-	OCap    int      `json:"ocap,omitempty"` // outer channel (joincc) / channel b (pipeline)
-	N       int      `json:"n,omitempty"`    // do: number of functions
-	Errs    []int    `json:"errs,omitempty"` // do: 0 = nil error, otherwise the error's id
-	Pairs   [][2]int `json:"pairs,omitempty"`
+	Sys     string  `json:"sys"`     // fmap dup joincc joinsc joinsel pipeline do
+	Variant string  `json:"variant"` // wrapper of the fixed package that is exercised
+	Caps    []int   `json:"caps,omitempty"`
+	Items   [][]int `json:"items,omitempty"`
+	OCap    int     `json:"ocap,omitempty"` // outer channel (joincc) / channel b (pipeline)
+	// joinsc with zero inputs: pass a nil slice instead of an empty non-nil one (same LTS configuration
+	// n = 0: the output must still be a fresh channel that is closed at once)
+	NilSlice bool     `json:"nil_slice,omitempty"`
+	N        int      `json:"n,omitempty"`    // do: number of functions
+	Errs     []int    `json:"errs,omitempty"` // do: 0 = nil error, otherwise the error's id
+	Pairs    [][2]int `json:"pairs,omitempty"`
 }
 
 // F is the user function of the fmap scenarios (the Lean driver uses the same one).
@@ -157,6 +160,9 @@ func RandomConfig(sys string, r *rand.Rand, maxIn, maxItems, maxCap int) Config 
 	if sys == "joincc" || sys == "pipeline" {
 		c.OCap = r.Intn(maxCap + 1)
 	}
+	if sys == "joinsc" && n == 0 {
+		c.NilSlice = r.Intn(2) == 0
+	}
 	return c
 }
 
@@ -194,6 +200,10 @@ func SmallConfigs(sys string, inputs, items, maxCap int) []Config {
 				for _, oc := range ocaps {
 					c := Config{Sys: sys, Variant: variant, OCap: oc, Caps: append([]int{}, caps...), Items: mkItems(counts)}
 					out = append(out, c)
+					if sys == "joinsc" && n == 0 { // zero inputs both as an empty slice and as a nil slice
+						c.NilSlice = true
+						out = append(out, c)
+					}
 				}
 				return
 			}
@@ -239,4 +249,17 @@ func DoConfigs(n int) []Config {
 		}
 	}
 	return out
+}
+
+// ZeroConfigs are the "nothing at all" configurations of a channel system: zero inputs for the join
+// forms that allow it (nil slice AND empty slice for the slice form; an outer channel / channel b that
+// is closed without ever carrying a channel), inputs without items for fmap, dup and the select form.
+func ZeroConfigs(sys string) []Config {
+	switch sys {
+	case "fmap", "dup":
+		return SmallConfigs(sys, 1, 0, 2)
+	case "joinsel":
+		return append(SmallConfigs(sys, 2, 0, 1), SmallConfigs(sys, 3, 0, 1)...)
+	}
+	return SmallConfigs(sys, 0, 0, 2)
 }
